@@ -274,6 +274,8 @@ class ElementList(MutableSequence):
         """
         if self._can_add_child(child):
             if self.element == child.parent:
+                if any(c is child for c in self.list):
+                    return  # already a child of this element: it must not be listed twice
                 self._remove_from_traversal_index(child)
                 self.list.append(child)
                 try:
@@ -507,6 +509,10 @@ class ElementList(MutableSequence):
                     # the child has been refused: do not leave it pointing at an element that does not list it
                     child._parent, child._traversal_parent = previous
                     raise
+                if previous[0] is not None and previous[0] is not self.element and \
+                        any(c is child for c in previous[0].children):
+                    # an element has one parent: attaching it here detaches it from the previous one
+                    previous[0].children.remove(child)
             else:
                 # if validation is strict, check the child cardinality
                 if Validator.is_strict(self.element.validation_level):
